@@ -76,6 +76,12 @@ TEXT.update({
             "snapshot-identity monitor on projection guards + history linearizability + ASan/Miri"),
 })
 
+TEXT.update({
+    "C20": ("exploration", "5 C20",
+            "Seeded random serializable values are pushed through the container and compared with the pointee's own serialization (string and token tree), for ArcSwap and ArcSwapOption, under all three default-constructible strategies; deserialization is checked for value and reference count; a pointee whose Serialize impl stores into the container half-way checks that the serialized value is a protected snapshot; deserialize_in_place is run with guards outstanding; natively, under ASan and under Miri.",
+            "differential monitor container-vs-pointee serialization over random values + ASan/Miri"),
+})
+
 NOTE = {
     "C01": "Trusted: the harness pointer type and scheduler; TOKEN mode explores sequentially consistent interleavings only; SC-only ordering weakenings are out of reach (DESIGN.md).",
 }
